@@ -20,6 +20,7 @@ RULE = (
     "#occupied+1, which must raise) x shuffle x balance x seeds 0..3 x {shape, spacing} x feature matrix {float C-ordered, integer dtype, Fortran-ordered}; BlockShuffleSplit (layouts with <= 4 cells; "
     "thorough <= 6): test_size {0.1,0.25,0.5,0.75,2} x train_size {None,0.5} x balancing {1,2,3} x n_splits {1,2,3} x seeds 0..3. "
     "Every split is checked against block membership known by construction. Non-trivial: >= 3 occupied blocks with unequal populations."
+    " Added axes: integer and Fortran feature matrices, attribute route, sparse 25^2 / 40^2 / 60^2 block grids, non-square blocks via spacing=(s_n, s_e), blocks of 2^-10 at coordinates of 2^20, populations (1,1,1,1,3,8) in every order and all vectors over {1, 8}; a fall-back is accepted only when the documented balancing rule (own exact model) fails."
 )
 ASSUMPTIONS = ["scikit-learn's ShuffleSplit/KFold are trusted for the number of blocks per side; the candidates drawn by BlockShuffleSplit are "
                "observed through a recording subclass installed as verde.model_selection.ShuffleSplit",
